@@ -70,7 +70,6 @@ var logOnce sync.Once
 func Quiet() {
 	logOnce.Do(func() {
 		log4g.SetLogLevel("", log4g.FATAL)
-		NoFileLimit() // in-process servers leave chunk descriptors open: take what the process may have
 	})
 }
 
